@@ -629,6 +629,10 @@ func inRange(start, end, val []byte, isEnd bool) bool {
 		}
 		return bytes.Compare(start, val) <= 0
 	}
+	if start != nil && end != nil && val == nil {
+		// An unbounded start or end is never inside a bounded range
+		return false
+	}
 	return bytes.Compare(start, val) <= 0 && bytes.Compare(end, val) >= 0
 }
 
@@ -690,7 +694,7 @@ func (o *FilterOptimizer) intersectionRange(l, r *ScanType) *ScanType {
 	}
 
 	// start == end just use MGET
-	if bytes.Compare(nstart, nend) == 0 {
+	if nstart != nil && nend != nil && bytes.Compare(nstart, nend) == 0 {
 		return &ScanType{MGET, [][]byte{nstart}}
 	}
 
@@ -767,7 +771,7 @@ func (o *FilterOptimizer) unionRange(l, r *ScanType) *ScanType {
 	}
 
 	// start == end just use MGET scan
-	if bytes.Compare(nstart, nend) == 0 {
+	if nstart != nil && nend != nil && bytes.Compare(nstart, nend) == 0 {
 		return &ScanType{MGET, [][]byte{nstart}}
 	}
 	return &ScanType{RANGE, [][]byte{nstart, nend}}
